@@ -18,9 +18,10 @@ pub struct Pair {
     pub hub_buffered: Hub,
 }
 
-pub const ROUTES: &[&str] = &["", "direct", "http->B", "socks5->B", "socks4->B", "loadbalance[direct,http->B]"];
+pub const ROUTES: &[&str] = &["", "direct", "http->B", "socks5->B", "socks4->B", "loadbalance[direct,http->B]", "https->B", "quic->B"];
+const NROUTES: u8 = 8;
 
-fn a_yaml(http: u16, socks: u16, reverse: u16, hub: u16, b_http: u16, b_socks: u16, splice: bool, buffer: usize) -> String {
+fn a_yaml(http: u16, socks: u16, reverse: u16, hub: u16, b_http: u16, b_socks: u16, b_https: u16, b_quic: u16, splice: bool, buffer: usize) -> String {
     format!(
         r#"apiVersion: v1
 kind: test
@@ -50,6 +51,19 @@ connectors:
   - name: lb
     type: loadbalance
     connectors: [direct, uphttp]
+  - name: uphttps
+    type: http
+    server: localhost
+    port: {b_https}
+    tls:
+      ca: /verif/pki/ca.crt
+  - name: upquic
+    type: quic
+    server: localhost
+    port: {b_quic}
+    bind: "127.0.0.1:0"
+    tls:
+      ca: /verif/pki/ca.crt
 rules:
   - filter: request.listener == "reverse" || request.target.host == "127.0.1.1"
     target: direct
@@ -61,6 +75,10 @@ rules:
     target: upsocks4
   - filter: request.target.host == "127.0.1.5"
     target: lb
+  - filter: request.target.host == "127.0.1.6"
+    target: uphttps
+  - filter: request.target.host == "127.0.1.7"
+    target: upquic
 ioParams:
   bufferSize: {buffer}
   useSplice: {splice}
@@ -71,23 +89,25 @@ ioParams:
         hub = hub,
         b_http = b_http,
         b_socks = b_socks,
+        b_https = b_https,
+        b_quic = b_quic,
         splice = splice,
         buffer = buffer
     )
 }
 
 pub async fn start_pair(buffer: usize) -> Result<Pair, String> {
-    let (bh, bs) = (free_port(), free_port());
+    let (bh, bs, bt, bq) = (free_port(), free_port(), free_port(), free_port());
     let b_yaml = format!(
-        "apiVersion: v1\nkind: test\nlisteners:\n  - name: http\n    bind: 127.0.0.1:{}\n  - name: socks\n    bind: 127.0.0.1:{}\nconnectors:\n  - name: direct\nrules:\n  - target: direct\nioParams:\n  bufferSize: 65536\n  useSplice: true\n",
-        bh, bs
+        "apiVersion: v1\nkind: test\nlisteners:\n  - name: http\n    bind: 127.0.0.1:{}\n  - name: socks\n    bind: 127.0.0.1:{}\n  - name: https\n    type: http\n    bind: 127.0.0.1:{}\n    tls:\n      cert: /verif/pki/server.crt\n      key: /verif/pki/server.key\n  - name: quic\n    bind: 127.0.0.1:{}\n    tls:\n      cert: /verif/pki/server.crt\n      key: /verif/pki/server.key\nconnectors:\n  - name: direct\nrules:\n  - target: direct\nioParams:\n  bufferSize: 65536\n  useSplice: true\n",
+        bh, bs, bt, bq
     );
-    let b = tokio::task::spawn_blocking(move || Proxy::start("b", &b_yaml, &[bh, bs], None)).await.map_err(|e| e.to_string())??;
+    let b = tokio::task::spawn_blocking(move || Proxy::start("b", &b_yaml, &[bh, bs, bt], None)).await.map_err(|e| e.to_string())??;
     let hub_splice = Hub::start().await;
     let hub_buffered = Hub::start().await;
     let mk = |splice: bool, hub: u16| {
         let (h, s, r) = (free_port(), free_port(), free_port());
-        (a_yaml(h, s, r, hub, bh, bs, splice, buffer), Ports { http: h, socks: s, reverse: r })
+        (a_yaml(h, s, r, hub, bh, bs, bt, bq, splice, buffer), Ports { http: h, socks: s, reverse: r })
     };
     let (y1, ports_splice) = mk(true, hub_splice.port);
     let (y2, ports_buffered) = mk(false, hub_buffered.port);
@@ -121,7 +141,7 @@ pub fn spec_strategy(max_len: u32, clean_only: bool) -> impl Strategy<Value = Tu
         }
     };
     (
-        (prop_oneof![Just(Lk::Http), Just(Lk::Socks5), Just(Lk::Socks4), Just(Lk::Reverse)], 1u8..6, any::<u64>()),
+        (prop_oneof![Just(Lk::Http), Just(Lk::Socks5), Just(Lk::Socks4), Just(Lk::Reverse)], 1u8..NROUTES, any::<u64>()),
         (len_strategy(max_len), len_strategy(max_len), prop_oneof![Just(0u32), 1u32..2000]),
         (prop_oneof![Just(0u32), 1u32..100, 1000u32..100_000], prop_oneof![Just(0u32), 1u32..100, 1000u32..100_000]),
         (reader_strategy(), reader_strategy(), any::<bool>()),
@@ -254,7 +274,7 @@ fn grid(seed: u64) -> Vec<TunnelSpec> {
     let mut v = vec![];
     let mut k = seed.wrapping_mul(0x9E3779B97F4A7C15) | 1;
     for l in [Lk::Http, Lk::Socks5, Lk::Socks4, Lk::Reverse] {
-        for route in 1u8..6 {
+        for route in 1u8..NROUTES {
             if l == Lk::Reverse && route != 1 {
                 continue;
             }
@@ -288,7 +308,7 @@ fn backpressure(seed: u64, n: usize, mb: u32) -> Vec<TunnelSpec> {
         let c2s_big = i % 2 == 0;
         v.push(TunnelSpec {
             listener: [Lk::Http, Lk::Socks5, Lk::Reverse, Lk::Socks4][i % 4],
-            route: if i % 4 == 2 { 1 } else { 1 + (i % 5) as u8 },
+            route: if i % 4 == 2 { 1 } else { 1 + (i % (NROUTES as usize - 1)) as u8 },
             tag: k,
             c2s_len: if c2s_big { mb << 20 } else { 1000 },
             s2c_len: if c2s_big { 1000 } else { mb << 20 },
@@ -317,7 +337,7 @@ impl SubCheck for SocketsCheck {
         "sockets"
     }
     fn rule(&self) -> String {
-        let common = "two real proxies A (useSplice true / false, bufferSize 4096) in front of a second real proxy B; every listener {http CONNECT, socks5, socks4, reverse} x upstream path {direct, http->B, socks5->B, socks4->B, loadbalance[direct, http->B]} pairing once per I/O mode (enumerated), directed back-pressure cases (8-16 MiB towards a consumer with a fixed 256 KiB receive buffer that reads continuously / in bursts / only after a 0.7 s stall) and generated schedules (payload 0..4 MiB per direction, early data glued to the handshake, write chunking, reader stall patterns, half-close / close-after-peer-EOF / RST at a generated offset), each run against both I/O modes at the same time";
+        let common = "two real proxies A (useSplice true / false, bufferSize 4096) in front of a second real proxy B; every listener {http CONNECT, socks5, socks4, reverse} x upstream path {direct, http->B, socks5->B, socks4->B, loadbalance[direct, http->B], https->B (TLS hop), quic->B (QUIC stream hop)} pairing once per I/O mode (enumerated), directed back-pressure cases (8-16 MiB towards a consumer with a fixed 256 KiB receive buffer that reads continuously / in bursts / only after a 0.7 s stall) and generated schedules (payload 0..4 MiB per direction, early data glued to the handshake, write chunking, reader stall patterns, half-close / close-after-peer-EOF / RST at a generated offset), each run against both I/O modes at the same time";
         if self.property == "C01" {
             format!("{}; oracle: bytes at the origin == bytes the client sent and vice versa (a prefix when a side aborts); non-trivial = >= 64 KiB in some direction and (early data or a stalled/small-buffer consumer or an upstream proxy hop)", common)
         } else {
